@@ -281,7 +281,7 @@ Definition l0_op (d : wdecl) (o : op) : bool :=
   match o with
   | OCreate _ _ => true
   | ODestroy (LArch b) KEnt TAny (RIssued _) | OProbe (LArch b) KEnt TAny (RIssued _) => b <? length (wd_archs d)
-  | OProbe LWorld KEnt TAny (RIssued _) => true
+  | OProbe LWorld KEnt TAny (RIssued _) | ODestroy LWorld KEnt TAny (RIssued _) => true
   | _ => false
   end.
 
@@ -549,6 +549,118 @@ Proof.
       * apply (r_drop _ _ _ HR).
 Qed.
 
+Lemma step_destroy_world_unfold cfg d qs st w i e b bd s : cur_world st = Some w -> issued st !! i = Some e -> snd e <> 0%N ->
+  wd_archs d !! b = Some bd -> w !! b = Some s -> find_arch (wd_archs d) (key_arch_id (fst e)) = Some b ->
+  step cfg d qs st (ODestroy LWorld KEnt TAny (RIssued i)) =
+    if decide (da_id bd = key_arch_id (fst e)) then
+      match destroy cfg KEnt s e with
+      | Ok s1 (Some row) => let '(st2, obs) := after_drop d bd (set_world st (upd w b s1)) [1%N] in ret st2 obs
+      | Ok s1 None => ret st [0%N]
+      | Panic p s1 => ret (set_world st (upd w b s1)) [2%N; pcode p]
+      | UB => None
+      end
+    else Some (st, [0%N]).
+Proof.
+  intros Hcur Hi Hv Had Hs Hfa. destruct (find_arch_some _ _ _ Hfa) as (ad' & Had' & Hid' & _).
+  assert (ad' = bd) as -> by congruence. rewrite decide_True by done.
+  cbn [step]. rewrite Hcur. cbn [get_href]. rewrite Hi. unfold make_key.
+  assert (raw_ok (snd e) = true) as -> by (unfold raw_ok, nonzero_new; destruct (N.eqb_spec (snd e) 0); done).
+  cbn [negb dispatch_world]. rewrite Hfa. rewrite Had, Hs. done.
+Qed.
+
+Lemma rel_step_destroy_world cfg d qs st sst i : wrapping cfg = false -> wf_decl d -> NoDup (da_id <$> wd_archs d) -> Rel d st sst ->
+  exists st' obs sst', step cfg d qs st (ODestroy LWorld KEnt TAny (RIssued i)) = Some (st', obs) /\ obs <> [254%N] /\
+    spec_step cfg d qs sst (ODestroy LWorld KEnt TAny (RIssued i)) obs = inr sst' /\ Rel d st' sst'.
+Proof.
+  intros Hwr Hwf Hnd HR. destruct (rel_cur d st sst HR) as (w & sw & Hw & Hsw & Hcw & Hcsw & HWI & Harch).
+  destruct (r_cur _ _ _ HR) as [Hc0 Hsc0]. destruct (r_iss _ _ _ HR) as [Hfi Hwi].
+  pose proof (step_inv cfg d qs st (ODestroy LWorld KEnt TAny (RIssued i)) Hwf I (r_inv _ _ _ HR)) as Hinv.
+  destruct (issued st !! i) as [e|] eqn:Hi.
+  2: { exists st, [8%N], sst. split_and!; [|done|cbn [spec_step]; rewrite Hcsw|done].
+       - cbn [step]. rewrite Hcw. cbn [get_href]. by rewrite Hi.
+       - assert (Hl : (fst <$> s_issued sst) !! i = None) by (by rewrite Hfi). rewrite list_lookup_fmap in Hl.
+         destruct (s_issued sst !! i); [done|]. done. }
+  destruct (rel_issued d st sst w sw i e Hnd HR Hw Hsw Hi) as (Hv & Hk & (a0 & Hsi) & a & ad & s & x & Had & Hid & Hfa & Hs & Hx & HA & HS & Hc).
+  rewrite (step_destroy_world_unfold cfg d qs st w i e a ad s Hcw Hi Hv Had Hs Hfa) in Hinv |- *.
+  assert (Hissued_here : (0 <? count_h e (default [] (s_wissued sst !! s_cur sst))) = true).
+  { rewrite Hsc0, Hwi. change (default [] ([issued st] !! 0)) with (issued st). apply Nat.ltb_lt. unfold count_h.
+    assert (Hin : e ∈ filter (fun y => heqb y e = true) (issued st)) by (apply elem_of_list_filter; split; [by apply heqb_eq|by eapply elem_of_list_lookup_2]).
+    destruct (filter _ (issued st)); [by apply elem_of_nil in Hin|cbn; lia]. }
+  rewrite decide_True in Hinv |- * by done. pose proof Hid as Hide.
+  destruct HS as (HI & Haid & Hcols).
+  pose proof (destroy_summary cfg s (iss_of (aid s) (issued st)) e Hwr HI (a_hist _ _ _ HA) Hk ltac:(congruence) Hc) as Hds.
+  (* the oracle's prefix *)
+  assert (Hpre : forall obs, spec_step cfg d qs sst (ODestroy LWorld KEnt TAny (RIssued i)) obs =
+    match obs with
+    | 1%N :: vals => match find_sent e (sa_live x) with
+                     | None => inl (1%N, 1%N)
+                     | Some e0 => inr (set_sarch sst sw a (sarch_remove x e))
+                     end
+    | _ => spec_step cfg d qs sst (ODestroy LWorld KEnt TAny (RIssued i)) obs
+    end).
+  { intros obs. destruct obs as [|o1 vals]; [done|]. destruct (N.eq_dec o1 1) as [->|Hne]; [|by destruct o1 as [|[| |]]].
+    cbn [spec_step]. rewrite Hcsw, Hsi. cbn [fmap option_fmap option_map fst]. unfold expect_key. cbn [fst snd].
+    destruct (N.eqb_spec (snd e) 0) as [|_]; [done|]. rewrite Hfa. rewrite Hx. rewrite Hissued_here.
+    destruct (find_sent e (sa_live x)); done. }
+  destruct (destroy cfg KEnt s e) as [s' [row|]|p s'|] eqn:Hdes; [| | |done].
+  - (* removed *)
+    destruct Hds as (Hrow & HH' & Hcap' & Hlen' & Hpos & Hrows).
+    unfold after_drop in Hinv |- *. cbn [drop_in set_world] in Hinv |- *. rewrite (r_drop _ _ _ HR) in Hinv |- *.
+    cbn [drop_row N.eqb ret] in Hinv |- *.
+    set (st' := set_drop_in (set_world st (upd w a s')) 0%N) in *.
+    assert (HS' : SInv ad s').
+    { assert (HWI' : WInv d (upd w a s')) by (eapply (RInv_cur d st'); [done|unfold cur_world; cbn; by rewrite Hw, Hc0]).
+      destruct (Forall2_lookup_l _ _ _ _ _ HWI' Had) as (s2 & Hs2 & HS2).
+      assert (Hup : upd w a s' !! a = Some s') by (unfold upd; apply list_lookup_insert; by eapply lookup_lt_Some).
+      by assert (Some s2 = Some s') as [= ->] by (etrans; [symmetry; exact Hs2|exact Hup]). }
+    destruct HS' as (HI' & Haid' & Hcols').
+    pose proof (a_b1 _ _ _ HA e row Hrow) as Hfind.
+    exists st', [1%N], (set_sarch sst sw a (sarch_remove x e)). split_and!; [done|done| |].
+    + by rewrite Hpre, Hfind.
+    + constructor; try done.
+      * exists (upd w a s'), (<[a := sarch_remove x e]> sw). split_and!; [cbn; by rewrite Hw, Hc0|cbn; by rewrite Hsw, Hsc0|].
+        intros a2 ad2 Had2. destruct (decide (a2 = a)) as [->|Hne].
+        -- rewrite Had in Had2. injection Had2 as <-. exists s', (sarch_remove x e). unfold upd.
+           split_and!; [apply list_lookup_insert; by eapply lookup_lt_Some|apply list_lookup_insert; by eapply lookup_lt_Some|].
+           constructor.
+           ++ apply (a_sync _ _ _ HA).
+           ++ intros e' r Hr. apply Hrows in Hr as [Hr Hne']. cbn [sarch_remove sa_live]. rewrite find_sent_remove, decide_False by done.
+              by apply (a_b1 _ _ _ HA).
+           ++ intros e' He'. cbn [sarch_remove sa_live]. rewrite find_sent_remove. case_decide as Hee; [done|].
+              apply (a_b2 _ _ _ HA). intros Hin. destruct (ents_has_row s e' HI Hin) as [r Hr]. apply He'.
+              eapply has_row_ents, Hrows. done.
+           ++ cbn [sarch_remove sa_live]. rewrite handles_remove. apply NoDup_filter, (a_nodup _ _ _ HA).
+           ++ cbn [sarch_remove sa_live]. rewrite <- (fmap_length se_h). fold (handles_of (remove_sent e (sa_live x))).
+              rewrite handles_remove, length_remove_nodup; [|apply (a_nodup _ _ _ HA)|].
+              ** unfold handles_of. rewrite fmap_length, (a_len _ _ _ HA). lia.
+              ** destruct (decide (e ∈ handles_of (sa_live x))) as [|Hn]; [done|]. apply find_sent_none in Hn. congruence.
+           ++ cbn [st' set_drop_in set_world issued]. assert (aid s' = aid s) as -> by congruence. done.
+        -- destruct (Harch a2 ad2 Had2) as (s2 & x2 & Hs2 & Hx2 & HA2 & _).
+           exists s2, x2. unfold upd.
+           split_and!; [etrans; [apply list_lookup_insert_ne; congruence|exact Hs2]|etrans; [apply list_lookup_insert_ne; congruence|exact Hx2]|done].
+      * apply (r_ids _ _ _ HR).
+  - (* absent *)
+    destruct Hds as (-> & Hnin). cbn [ret] in Hinv |- *.
+    exists st, [0%N], sst. split_and!; [done|done| |done].
+    cbn [spec_step]. rewrite Hcsw, Hsi. cbn [fmap option_fmap option_map fst]. unfold expect_key. cbn [fst snd].
+    destruct (N.eqb_spec (snd e) 0) as [|_]; [done|]. rewrite Hfa. rewrite Hx.
+    rewrite (a_sync _ _ _ HA), (a_b2 _ _ _ HA e Hnin). cbn. done.
+  - (* generation / version overflow *)
+    destruct Hds as (-> & Hp). cbn [ret] in Hinv |- *.
+    set (st' := set_world st (upd w a s)) in *.
+    exists st', [2%N; pcode p], sst. split_and!; [done|by destruct Hp as [-> | ->]| |].
+    + cbn [spec_step]. rewrite Hcsw, Hsi. cbn [fmap option_fmap option_map fst]. unfold expect_key. cbn [fst snd].
+      destruct (N.eqb_spec (snd e) 0) as [|_]; [done|]. rewrite Hfa. rewrite Hx.
+      rewrite (a_sync _ _ _ HA), Hwr. destruct Hp as [-> | ->]; cbn [pcode N.eqb orb]; done.
+    + assert (Hupd : upd w a s = w) by (unfold upd; by apply list_insert_id).
+      constructor; try done.
+      * exists w, sw. split_and!; [cbn; by rewrite Hw, Hc0, Hupd|done|].
+        intros a2 ad2 Had2. destruct (Harch a2 ad2 Had2) as (s2 & x2 & ? & ? & ? & _). by exists s2, x2.
+      * apply (r_ids _ _ _ HR).
+      * apply (r_drop _ _ _ HR).
+Qed.
+
+
 (* ---------------------------------------------------------------- the initial world and whole histories *)
 
 Lemma new_world_fresh archs : forall caps w a s, new_world archs caps = Ok w tt -> w !! a = Some s -> len s = 0.
@@ -595,8 +707,8 @@ Lemma rel_step cfg d qs st sst o : wrapping cfg = false -> wf_decl d -> NoDup (d
 Proof.
   intros Hwr Hwf Hnd HR Hl0. destruct o as [| | | |a v| |l k t r|l k t r| | | | | | | | | | | | | | |]; try done.
   - by apply rel_step_create.
-  - destruct l as [|b]; [done|]. destruct k; [|done]. destruct t; try done. destruct r as [i| |]; try done.
-    by apply rel_step_destroy.
+  - destruct k; [|by destruct l]. destruct t; try (by destruct l). destruct r as [i| |]; try (by destruct l).
+    destruct l as [|b]; [by apply rel_step_destroy_world|by apply rel_step_destroy].
   - destruct k; [|by destruct l]. destruct t; try (by destruct l). destruct r as [i| |]; try (by destruct l).
     destruct (rel_step_probe cfg d qs st sst l i Hnd HR Hl0) as (obs & Hst & Hsp & Hne).
     exists st, obs, sst. done.
